@@ -47,7 +47,7 @@ def run(report, db, tier):
         fi = db.own_method(ci, 'react')
         if fi is None:
             raise AnalysisError('%s.react vanished' % cname)
-        me = ('sym', fi.params[0])
+        me = ('sym', fi.all_params[0])
         opts = ('attr', ('attr', me, 'connection'), 'options')
         nsw += shared.switch_is_quiet(
             report, R6, db, S, M, cg, fi, S.run(fi), 'set compression',
@@ -213,7 +213,7 @@ def r1(report, db, cg, M):
     wb = db.own_method(pk, '_write_buffer')
     if wb is None:
         raise AnalysisError('Packet._write_buffer vanished')
-    sock = wb.params[1]
+    sock = wb.all_params[1]
     sends = []
     for i, st in enumerate(wb.body):
         for x in ast.walk(st):
